@@ -63,7 +63,7 @@ func spaces(thorough bool) []fnSpace {
 	counts := []int{-2, -1, 0, 1, 2, 3, 4}
 	var out []fnSpace
 	for _, fn := range twoArg {
-		fs := fnSpace{Fn: fn, Batch: 60}
+		fs := fnSpace{Fn: fn, Batch: 24}
 		for _, s := range subj {
 			for _, p := range seps {
 				fs.Tuples = append(fs.Tuples, Tuple{Fn: fn, S: []string{s, p}})
@@ -77,7 +77,7 @@ func spaces(thorough bool) []fnSpace {
 		if thorough {
 			el, n = []string{"", "a", "b", " ", "ab"}, 4
 		}
-		fs := fnSpace{Fn: "Join", Batch: 60}
+		fs := fnSpace{Fn: "Join", Batch: 24}
 		for _, l := range lists(el, n) {
 			for _, p := range seps {
 				fs.Tuples = append(fs.Tuples, Tuple{Fn: "Join", IsJ: true, Elems: l, S: []string{p}})
@@ -86,7 +86,7 @@ func spaces(thorough bool) []fnSpace {
 		out = append(out, fs)
 	}
 	{
-		fs := fnSpace{Fn: "Repeat", Batch: 60}
+		fs := fnSpace{Fn: "Repeat", Batch: 24}
 		for _, s := range subj {
 			for _, c := range counts {
 				fs.Tuples = append(fs.Tuples, Tuple{Fn: "Repeat", S: []string{s}, N: c, HasN: true})
@@ -95,8 +95,8 @@ func spaces(thorough bool) []fnSpace {
 		out = append(out, fs)
 	}
 	{
-		fs := fnSpace{Fn: "Replace", Batch: 60}
-		fa := fnSpace{Fn: "ReplaceAll", Batch: 60}
+		fs := fnSpace{Fn: "Replace", Batch: 24}
+		fa := fnSpace{Fn: "ReplaceAll", Batch: 24}
 		for _, s := range subj {
 			for _, o := range seps {
 				for _, nw := range repl {
@@ -111,7 +111,7 @@ func spaces(thorough bool) []fnSpace {
 	}
 	{
 		// TrimSpace: the blank alphabet plus the other white space the library lists.
-		fs := fnSpace{Fn: "TrimSpace", Batch: 60}
+		fs := fnSpace{Fn: "TrimSpace", Batch: 24}
 		seen := map[string]bool{}
 		for _, s := range subj {
 			seen[s] = true
